@@ -6,8 +6,10 @@ false)` (comment.rs:243-395) under `normalize_comments = false` and `wrap_commen
 Under these two settings neither `block_style` nor `shape.width` is read; the result depends on `orig`,
 `shape.indent` and `hard_tabs` / `tab_spaces` only.
 
-Modelled: `comment_style`, `is_custom_comment`, `custom_opener`, `consume_same_line_comments`, the search
-for the closer of a block comment, `light_rewrite_comment`, and the recursion on the rest of the comment.
+Modelled: `comment_style`, `is_custom_comment`, `custom_opener`, `consume_same_line_comments`, the end of
+the first block comment (`find_comment_end`, through the `CharClasses` model), `light_rewrite_comment`, and
+the recursion on the rest of the comment.  Offsets are counted in characters (equal to the byte offsets of
+the code on ASCII text, to which the correspondence check restricts itself).
 NOT modelled: `trim_left_preserve_layout` (a block comment with a "bare line", i.e. a line that does not
 start with `*`, `//` or `/*`): `rewriteCommentLight` answers `none` there and the correspondence check
 does not use such comments.  `char::is_alphanumeric` is modelled for ASCII only, and the `fnw - 1` byte
@@ -89,36 +91,38 @@ def consumeSameLineComments (style : CommentStyle) (lineStart : List Char) :
       (hbl, raw :: got)
     else (false, [])
 
-/-- `orig.matches(pat).count()`: non-overlapping, left to right. -/
-def countMatches (pat : List Char) (fuel : Nat) (s : List Char) : Nat :=
-  match fuel with
-  | 0 => 0
-  | fuel + 1 =>
-    match s with
-    | [] => 0
-    | c :: cs =>
-      if pat.isPrefixOf (c :: cs) && !pat.isEmpty then 1 + countMatches pat fuel ((c :: cs).drop pat.length)
-      else countMatches pat fuel cs
-
 /-- `s.ends_with(p)` -/
 def endsWith (p s : List Char) : Bool := p.reverse.isPrefixOf s.reverse
 
-/-- The loop of comment.rs:320-342 over the raw lines: (has bare lines, consumed raw lines).
-`count` is the number of closers still to be seen. -/
-def blockGroup (openerLen : Nat) : List (List Char) → Bool → Nat → Bool → Bool × List (List Char)
-  | [], _, _, hbl => (hbl, [])
-  | raw :: rest, first, count, hbl =>
+/-- The position of the first character tagged `Normal` or `InString`. -/
+def firstCodeIndex : Nat → List (RF.CharClasses.Kind × Char) → Option Nat
+  | _, [] => none
+  | i, (k, _) :: rest =>
+    if k = RF.CharClasses.Kind.normal || k = RF.CharClasses.Kind.inString then some i
+    else firstCodeIndex (i + 1) rest
+
+/-- `find_comment_end`, comment.rs: the first position after the first comment. -/
+def findCommentEnd (s : List Char) : Option Nat :=
+  match firstCodeIndex 0 (RF.CharClasses.classes s) with
+  | some i => some i
+  | none =>
+    if RF.CharClasses.endStatus RF.CharClasses.Status.normal s = RF.CharClasses.Status.normal then
+      some s.length
+    else none
+
+/-- The loop over the lines of a block comment in `identify_comment`: the group is the first block
+comment up to the end of the line it ends on.  `offset` is `closing_symbol_offset`.  Returns
+(has bare lines, consumed raw lines). -/
+def blockGroup (firstCommentEnd : Nat) : List (List Char) → Nat → Bool → Bool × List (List Char)
+  | [], _, hbl => (hbl, [])
+  | raw :: rest, offset, hbl =>
+    let offset := offset + raw.length
     let trimmedLine := trimStart (stripLineEnding raw)
     let hbl := if !startsWith ['*'] trimmedLine && !startsWith "//".toList trimmedLine &&
         !startsWith "/*".toList trimmedLine then true else hbl
-    let trimmedLine := if first then trimmedLine.drop openerLen else trimmedLine
-    if endsWith "*/".toList trimmedLine then
-      if count - 1 = 0 then (hbl, [raw])
-      else
-        let (h, got) := blockGroup openerLen rest false (count - 1) hbl
-        (h, raw :: got)
+    if offset ≥ firstCommentEnd then (hbl, [raw])
     else
-      let (h, got) := blockGroup openerLen rest false count hbl
+      let (h, got) := blockGroup firstCommentEnd rest offset hbl
       (h, raw :: got)
 
 /-- One line of `light_rewrite_comment`, comment.rs:1070-1086 (`is_doc_comment = false`). -/
@@ -150,7 +154,7 @@ def identifyCommentLight (indentStr : List Char) : Nat → List Char → Option 
         consumeSameLineComments style (trimStart style.lineStart) raws
       | .custom opener => consumeSameLineComments style (trimEnd opener) raws
       | _ =>
-        blockGroup (trimEnd style.opener).length raws true (countMatches "*/".toList orig.length orig) false
+        blockGroup ((findCommentEnd orig).getD orig.length) raws 0 false
     let firstGroup := group.flatten
     let rest := orig.drop firstGroup.length
     if hasBareLines && style.isBlockComment then none
